@@ -104,6 +104,30 @@ def open_transport(cfg: dict[str, Any], protocol: type, impl: Any, **server_kw: 
             if th.is_alive():
                 raise HarnessStall(f"serve thread for {t} did not stop")
         return
+    if t == "subprocess":
+        # cfg needs "spec" (the JSON program spec) and "run_id"; the worker rebuilds the same service from it
+        import sys
+        import tempfile
+        from pathlib import Path
+
+        from vgi_rpc.rpc import StderrMode, SubprocessTransport
+
+        from lib import harness
+
+        root = Path(__file__).resolve().parent.parent
+        harness.SCRATCH.mkdir(exist_ok=True)
+        with tempfile.TemporaryDirectory(dir=harness.SCRATCH) as d:
+            sp = Path(d) / "spec.json"
+            sp.write_text(harness.dumps(cfg["spec"]))
+            tr = SubprocessTransport([sys.executable, str(root / "workers" / "spec_worker.py"), str(sp), cfg["run_id"]], stderr=StderrMode.DEVNULL)
+            try:
+                with RpcConnection(protocol, tr, on_log=on_log) as proxy:
+                    conn.proxy = proxy
+                    yield conn
+            finally:
+                with contextlib.suppress(Exception):
+                    tr.close()
+        return
     if t == "http":
         from vgi_rpc.http import http_connect, make_sync_client
 
